@@ -90,7 +90,8 @@ class BaseElementLocator
 
     void resize(std::size_t new_size, std::byte* memory_begin) noexcept
     {
-        last_element_ = element_address(new_size, memory_begin);
+        // the first element always starts at the beginning of the block; its slot may never have been written
+        last_element_ = new_size == 0 ? memory_begin : element_address(new_size, memory_begin);
         element_addresses_.resize_from_capacity(new_size);
     }
 
